@@ -201,6 +201,66 @@ def canon_xf(tdim, pay):
     return out
 
 
+def used_transforms(dim):
+    """The translated transforms dict a Dimension object USES: the lazyproperty
+    Dimension._dimension_transforms_dict (private - the caller's dict is no longer rewritten, so
+    there is no public place left where the translation can be observed as a dict).
+    -> ("ok", dict) | ("exc", ExceptionTypeName, message) | ("missing-attr", what): a missing
+    attribute must be reported by the caller as no-failing-input-found, never crash."""
+    if not hasattr(type(dim), "_dimension_transforms_dict"):
+        return ("missing-attr", "%s._dimension_transforms_dict" % type(dim).__name__)
+    try:
+        return ("ok", dim._dimension_transforms_dict)
+    except Exception as e:  # noqa
+        return ("exc", type(e).__name__, str(e)[:200])
+
+
+def partition_dimension(part, akey):
+    """The partition's OWN Dimension object for transforms key `akey` (private _dimensions).
+    -> ("ok", Dimension) | ("exc", ...) | ("missing-attr", what)"""
+    if not hasattr(type(part), "_dimensions"):
+        return ("missing-attr", "%s._dimensions" % type(part).__name__)
+    try:
+        dims = part._dimensions
+    except Exception as e:  # noqa
+        return ("exc", type(e).__name__, str(e)[:200])
+    return ("ok", dims[0] if (akey == "rows_dimension" or len(dims) == 1) else dims[1])
+
+
+def same_json(a, b):
+    """deep, type-aware equality of JSON-like objects (1 / True / "1" / 1.0 apart; dict order
+    ignored, key types respected)"""
+    if type(a) is not type(b):
+        return False
+    if isinstance(a, dict):
+        if len(a) != len(b):
+            return False
+        for k, v in a.items():
+            hit = [k2 for k2 in b if type(k2) is type(k) and k2 == k]
+            if not hit or not same_json(v, b[hit[0]]):
+                return False
+        return True
+    if isinstance(a, (list, tuple)):
+        return len(a) == len(b) and all(same_json(x, y) for x, y in zip(a, b))
+    if isinstance(a, float) and a != a:
+        return b != b
+    return a == b
+
+
+def untranslated_part(tdim):
+    """the part of a dimension-transforms dict the translation does not touch"""
+    tdim = tdim or {}
+    out = {k: v for k, v in tdim.items() if k not in ("elements", "order")}
+    order = tdim.get("order")
+    if isinstance(order, dict):
+        out["order"] = {k: v for k, v in order.items() if k not in ("element_ids", "fixed")}
+        if isinstance(order.get("fixed"), dict):
+            out["order.fixed"] = {k: v for k, v in order["fixed"].items() if k not in ("top", "bottom")}
+    elif "order" in tdim:
+        out["order"] = order
+    return out
+
+
 def _k(x):
     """dict keys: keep int and str apart in JSON-able form"""
     return ("i", x) if isinstance(x, int) and not isinstance(x, bool) else ("s", x) if isinstance(x, str) else ("n",) if x is None else ("?", repr(x))
